@@ -223,7 +223,7 @@ def r09_flow(ck: Check) -> None:
     where = summ.fi.loc
     for k in ("SAVE", "FLUSH", "CLEAR", "SETV", "SETU", "ROLLBACK", "BCAST", "VOK", "VBI", "APPLY"):
         ck.stats.setdefault("events", {})[k] = auto.seen.get(k, 0)
-    need = ["SAVE", "FLUSH", "CLEAR", "SETV", "BCAST", "VOK", "VBI", "APPLY"]
+    need = ["SAVE", "FLUSH", "CLEAR", "SETV", "BCAST", "VOK", "VBI", "APPLY", "ROLLBACK"]
     missing = [k for k in need if not auto.seen.get(k)]
     if missing:
         # fail closed: the handler no longer contains the events the automaton is about
